@@ -89,7 +89,9 @@ fn det(c: &mut TrkCtx, t: &mut Toks) -> DetIn {
         let n = t.usize();
         if n > 0 {
             let f: Vec<f32> = (0..n).map(|_| t.f32()).collect();
-            c.feat_tokens.insert(feat_key(&f), c.next_tok);
+            // identical features are one feature (first token wins): the store dump cannot tell them apart
+            let tok = c.next_tok;
+            c.feat_tokens.entry(feat_key(&f)).or_insert(tok);
             feature = Some(f);
         }
     }
